@@ -21,6 +21,14 @@ slice, and `held` is its content at the end of the history (`heldSame`: unchange
 the model and the Spec predicate are evaluated on BOTH: a result set that is right when handed out
 but changes while the caller holds it (a later or concurrent call writing into it) is a violation.
 
+Calls with `obs` (input) are made through `Observer.Process`: `payloads` is then what the tick hands out, and
+`impl.procs` holds what was seen of the process from outside (error returned, pre-processors invoked, what the
+runner was asked, what the post-processor got).  The runner-level history uses what the runner WAS asked; the
+process-level predicate `ProcObs.ok` says it had to be what the pre-processors returned.
+`impl.life`: the life-cycle calls made on the runner in order (`op`, `out`: 1 = an error at once, 0 = `Close` answered
+nil / `Start` took the runner over and returned nil once it was closed, 2 = `Start` answered nil at once, 3 = `Start`
+never returned, 4 = `Start` answered an error after it had taken the runner over); judged by `lifeOk`, compared with `lifeRun`.
+
 `events` are the runner's cache accesses in the order they happened (look-up loop of
 a call, aggregation of one batch), as logged by the harness at distinct virtual
 instants.  For every call the model computes the cache at its start from the
@@ -30,12 +38,57 @@ observed batches (each must be a predicted batch) and evaluates `parallelCheck`.
 open Lean AutoVerif.Codec
 namespace AutoVerif.C13
 
+structure ObsIn where
+  generic : Bool
+  tickFails : Bool
+  pres : List PreSpec
+  postFails : Bool
+
 structure CallIn where
   cid : Nat
   payloads : List Payload
+  obs : Option ObsIn := none
+  ctxDoneBefore : Bool := false   -- the caller's context was cancelled before the call
+
+def boolD (j : Json) (k : String) : Bool := match fieldD j k (.bool false) with | .bool b => b | _ => false
+
+def preIn (j : Json) : R PreSpec := do
+  pure { kind := ← natF j "kind", fails := boolD j "fails" }
+
+def obsIn (j : Json) : R ObsIn := do
+  pure { generic := boolD j "generic", tickFails := boolD j "tickFails", pres := ← listOf preIn (fieldD j "pres" .null),
+         postFails := boolD j "postFails" }
 
 def callIn (j : Json) : R CallIn := do
-  pure { cid := ← natF j "c", payloads := ← listF payload j "payloads" }
+  let timeout ← asInt (fieldD j "timeout" (.num 0))
+  pure { cid := ← natF j "c", payloads := ← listF payload j "payloads", obs := ← optOf obsIn (fieldD j "obs" .null),
+         ctxDoneBefore := timeout < 0 }
+
+/-- what was seen of one `Observer.Process` -/
+structure ProcIn where
+  cid : Nat
+  out : ProcOut
+  askedN : Nat
+  postCalls : Nat
+
+def procIn (j : Json) : R ProcIn := do
+  let asked := boolD j "asked"
+  let askedPs ← listOf payload (fieldD j "askedPs" .null)
+  let postCalls ← natF j "postCalls"
+  let postRes ← listOf checkResult (fieldD j "postRes" .null)
+  let postPs ← listOf payload (fieldD j "postPs" .null)
+  pure { cid := ← natF j "c", askedN := ← natF j "askedN", postCalls := postCalls,
+         out := { code := ← natF j "code", preCalls := ← natF j "preCalls",
+                  asked := if asked then some askedPs else none,
+                  post := if postCalls > 0 then some (postRes, postPs) else none } }
+
+structure LifeIn where
+  op : LifeOp
+  out : Nat
+
+def lifeIn (j : Json) : R LifeIn := do
+  let op ← strF j "op"
+  pure { op := if op == "start" then .start else .close, out := ← natF j "out" }
 
 def evOf (calls : List CallIn) (j : Json) : R Ev := do
   let t ← strF j "t"
@@ -183,7 +236,19 @@ def handle (input impl : Json) : R Reply := do
   | _ => pure ()
   let racy := match fieldD input "racy" (.bool false) with | .bool b => b | _ => false
   let expire ← natF input "expire"
-  let calls ← listF callIn input "calls"
+  let calls0 ← listF callIn input "calls"
+  let procs ← listOf procIn (fieldD impl "procs" .null)
+  let life ← listOf lifeIn (fieldD impl "life" .null)
+  -- the calls that reached the runner, with the payloads the runner was asked about
+  let calls : List CallIn := calls0.filterMap fun c => match c.obs with
+    | none => some c
+    | some _ => match procs.find? (fun p => p.cid == c.cid) with
+      | some p => p.out.asked.map fun ps => { c with payloads := ps }
+      | none => none
+  -- ... and how many the model expects to reach it
+  let expectedStarts := (calls0.filter fun c => match c.obs with
+    | none => true
+    | some o => !o.tickFails && (runPres o.pres c.payloads).1.isSome).length
   let evs0 ← listF (evOf calls) impl "events"
   let rets ← listF retIn impl "rets"
   let evs := addUnseen expire (fun cid => rets.any (fun r => r.cid == cid && r.stopped == 1)) [] evs0
@@ -208,14 +273,61 @@ def handle (input impl : Json) : R Reply := do
         some s!"call {cid}: model {m.values.length} results, impl {r.ret.values.length}; {lost.length} missing from impl {(lost.take 2).map showResult}…, {extra.length} only in impl (duplicates or foreign) {(extra.take 2).map showResult}…"
       else none
   let nStarts := (evs.filter (fun e => match e with | .start _ _ _ => true | _ => false)).length
-  let bad := if nStarts != calls.length then s!"{calls.length} calls, {nStarts} start events" :: bad else bad
-  let agree := racy || bad.isEmpty
+  let bad := if nStarts != expectedStarts then s!"{expectedStarts} calls expected to reach the runner, {nStarts} start events" :: bad else bad
+  -- nothing is submitted on a closed runner or with a context that was done before the call: the pipeline sees nothing
+  let bad := bad ++ calls.filterMap fun c =>
+    let closedBefore := rets.any (fun r => r.cid == c.cid && r.stopped == 2)
+    if (closedBefore || c.ctxDoneBefore) && !(donesOf c.cid evs0).isEmpty
+    then some s!"call {c.cid}: the pipeline was called although the runner was closed / the context done before the call"
+    else none
+  -- the observer around the runner: model = `process` over the model's answer of the runner
+  let obsCalls := calls0.filterMap fun c => c.obs.map fun o => (c, o)
+  let modelRetOf := fun (cid : Nat) => (st.rets.find? (fun x => x.1 == cid)).bind (·.2)
+  let procM := obsCalls.map fun (c, o) =>
+    let run := fun (_ : List Payload) => (modelRetOf c.cid).getD { values := [], err := false }
+    (c, o, process o.tickFails c.payloads o.pres run o.postFails)
+  let obsM : List ProcObs := procM.map fun (c, o, out) =>
+    { tickFails := o.tickFails, tick := c.payloads, pres := o.pres, postFails := o.postFails, out := out,
+      ret := out.asked.map fun _ => (modelRetOf c.cid).getD { values := [], err := false } }
+  let obsI : List (Nat × Option (ProcIn × ProcObs)) := obsCalls.map fun (c, o) =>
+    (c.cid, (procs.find? (fun p => p.cid == c.cid)).map fun p =>
+      (p, { tickFails := o.tickFails, tick := c.payloads, pres := o.pres, postFails := o.postFails, out := p.out,
+            ret := if p.out.asked.isSome then (rets.find? (fun r => r.cid == c.cid)).map (·.ret) else none }))
+  let badP := procM.filterMap fun (c, _, m) =>
+    match procs.find? (fun p => p.cid == c.cid) with
+    | none => some s!"call {c.cid}: nothing recorded of its Process"
+    | some p =>
+      if m.code != p.out.code then some s!"call {c.cid}: Process model error code {m.code}, impl {p.out.code}"
+      else if m.preCalls != p.out.preCalls then some s!"call {c.cid}: model {m.preCalls} pre-processors invoked, impl {p.out.preCalls}"
+      else if m.asked != p.out.asked then some s!"call {c.cid}: the runner was asked {(p.out.asked.map (·.length))} payloads, model {(m.asked.map (·.length))}"
+      else if p.askedN > 1 || p.postCalls > 1 then some s!"call {c.cid}: runner called {p.askedN} times, post-processor {p.postCalls} times"
+      else match m.post, p.out.post with
+        | none, none => none
+        | some (mv, mp), some (iv, ip) =>
+          if mp != ip then some s!"call {c.cid}: the post-processor got {ip.length} payloads, model {mp.length}"
+          else if !(mv.isPerm iv) then some s!"call {c.cid}: the post-processor got {iv.length} results, model {mv.length}"
+          else none
+        | _, _ => some s!"call {c.cid}: post-processor called: impl {p.out.post.isSome}, model {m.post.isSome}"
+  -- life cycle: model = `lifeRun` from a runner that is not running
+  let lifeObs : List (LifeOp × Bool) := life.map fun l => (l.op, l.out == 1)
+  let lifeM := lifeRun false (life.map (·.op))
+  let badL := (if lifeM != lifeObs.map (·.2) then [s!"life cycle: model errors {lifeM}, impl {lifeObs.map (·.2)}"] else []) ++
+    (life.filterMap fun l => if l.out ≥ 2 then some s!"life cycle: Start ended with outcome {l.out}" else none)
+  let bad := bad ++ badP ++ badL
+  let agree := (racy || bad.isEmpty) && badP.isEmpty && badL.isEmpty
   let modelRets := st.rets.filterMap fun (cid, m) => m.map fun r => (cid, r, canc cid)
-  let sm := racy || specTrace evs modelRets
+  let smObs := obsM.all (·.ok)
+  let smLife := lifeOk false ((life.map (·.op)).zip lifeM)
+  let sm := (racy || specTrace evs modelRets) && smObs && smLife
   let heldRets := rets.map fun r => (r.cid, ({ r.ret with values := r.held } : Ret), r.cancelled)
   let siNow := specTrace evs implRets
   let siHeld := specTrace evs heldRets
-  let si := siNow && siHeld
+  let siObs := obsI.all fun x => match x.2 with
+    | some (p, o) => o.ok && p.askedN ≤ 1 && p.postCalls ≤ 1
+    | none => false
+  let lifeStuck := life.find? (fun l => l.out ≥ 2)
+  let siLife := lifeOk false lifeObs && lifeStuck.isNone
+  let si := siNow && siHeld && siObs && siLife
   let exact := st.rets.all fun (cid, m) => match m, rets.find? (fun r => r.cid == cid) with
     | some m, some r => m.values == r.ret.values
     | _, _ => false
@@ -233,13 +345,41 @@ def handle (input impl : Json) : R Reply := do
   let tags := if evs.length != evs0.length then addTag "runner-closed:queued-batches-failed-unseen" tags else tags
   let tags := if rets.any (fun r => r.stopped == 2) then addTag "call-on-closed-runner" tags else tags
   let tags := if rets.any (fun r => r.stopped == 1 && !r.ret.err && !r.ret.values.isEmpty) then addTag "runner-closed:results-of-in-flight-batches-returned" tags else tags
+  let tags := if obsCalls.any (fun x => !x.2.generic) then addTag "observer:NewRunnableObserver" tags else tags
+  let tags := if obsCalls.any (fun x => x.2.generic) then addTag "observer:NewGenericObserver" tags else tags
+  let tags := if procM.any (fun x => x.2.2.code == 1) then addTag "observer:tick-error" tags else tags
+  let tags := if procM.any (fun x => x.2.2.code == 2) then addTag "observer:pre-processor-error(runner not asked)" tags else tags
+  let tags := if procM.any (fun x => x.2.2.code == 2 && x.2.2.preCalls < x.2.1.pres.length) then addTag "observer:pre-processor-error(later ones not invoked)" tags else tags
+  let tags := if procM.any (fun x => x.2.2.code == 3) then addTag "observer:runner-error(post-processor not called)" tags else tags
+  let tags := if procM.any (fun x => x.2.2.code == 4) then addTag "observer:post-processor-error" tags else tags
+  let tags := if procM.any (fun x => match x.2.2.asked with | some ps => ps.length < x.1.payloads.length | none => false) then addTag "observer:payloads-filtered" tags else tags
+  let tags := if procM.any (fun x => match x.2.2.asked with | some ps => ps.isEmpty && !x.1.payloads.isEmpty | none => false) then addTag "observer:all-filtered-away" tags else tags
+  let tags := if (lifeObs.zip (List.range lifeObs.length)).any (fun x => x.1.1 == .start && x.1.2 && x.2 > 0) then addTag "life:Start-while-running-rejected" tags else tags
+  let tags := if lifeObs.head? == some (.close, true) then addTag "life:Close-before-Start-rejected" tags else tags
+  let tags := if (lifeObs.zip (List.range lifeObs.length)).any (fun x => x.1.1 == .close && x.1.2 && x.2 > 0) then addTag "life:Close-after-Close-rejected" tags else tags
+  let tags := if calls.any (fun c => (rets.any (fun r => r.cid == c.cid && r.stopped == 2) || c.ctxDoneBefore) && !c.payloads.isEmpty
+                  && (rets.any (fun r => r.cid == c.cid && !r.ret.err && r.ret.values.isEmpty))) then addTag "zero-batches:nothing-submitted,nothing-cached" tags else tags
+  let tags := if calls.any (fun c => (rets.any (fun r => r.cid == c.cid && r.stopped == 2) || c.ctxDoneBefore)
+                  && (rets.any (fun r => r.cid == c.cid && !r.ret.err && !r.ret.values.isEmpty))) then addTag "zero-batches:nothing-submitted,hits-returned" tags else tags
   let tags := match fieldD input "instant" (.bool false) with
     | .bool true => addTag "instant-pipeline(batches complete concurrently)" tags
     | _ => tags
   pure { agree := agree, specModel := sm, specImpl := si,
          diff := if agree then "" else "; ".intercalate (bad.take 3),
          fail := if si then "" else if !siNow then explainTrace evs implRets
-                 else "retained result set (read again at the end of the history): " ++ explainTrace evs heldRets,
+                 else if !siHeld then "retained result set (read again at the end of the history): " ++ explainTrace evs heldRets
+                 else if !siObs then
+                   (match obsI.find? (fun x => match x.2 with | some (p, o) => !(o.ok && p.askedN ≤ 1 && p.postCalls ≤ 1) | none => true) with
+                    | some (cid, some (p, o)) =>
+                      s!"call {cid} through Observer.Process: " ++
+                        (if !o.ok then o.explain else s!"runner called {p.askedN} times, post-processor {p.postCalls} times")
+                    | some (cid, none) => s!"call {cid} through Observer.Process: nothing recorded"
+                    | none => "")
+                 else match lifeStuck with
+                   | some l => (if l.out == 2 then "Start answered nil at once instead of taking the runner over until Close (or an error)"
+                                else if l.out == 3 then "Start never returned although the runner was closed"
+                                else "Start answered an error after it had taken the runner over")
+                   | none => lifeExplain false lifeObs,
          nontrivial := st.nontriv, tags := tags.reverse }
 
 end AutoVerif.C13
